@@ -303,8 +303,7 @@ Section Faithful.
   Theorem parse_wf : parse_with oob bs = POk kv (decoded (concat tbl)).
   Proof.
     pose proof (spec_read_inv _ _ _ _ _ _ Hread) as (Eh & Ek & El & H1 & H2 & H3 & H4 & H5 & Ht & Hp).
-    pose proof (spec_header_inv _ _ _ Eh) as (hh & Hm & _ & Elen & E28 & Em & Hpp & Hle).
-    pose proof (mapped_header_len _ _ Hm) as (_ & _ & Hb & _). rewrite Elen in Hb.
+    pose proof (spec_header_inv _ _ _ Eh) as (Hpp & E28 & Hb & _ & Hfit & Em).
     unfold parse_with. cbv zeta. rewrite Hpp. cbn [negb orb]. change c_pageSize with 16384.
     destruct (N.ltb_spec (len bs) 16384) as [|_]; [lia|].
     rewrite hdr_np_val. change (28 + 4) with 32. rewrite <- E28.
